@@ -129,6 +129,8 @@ static void one_step(struct model *m, const struct step *s)
 			list_iterator_t it2;
 			bool f = list_contains(l, node, &it2);
 			VT_ASSERT(f == on(m, w, x));
+			VT_ASSERT(it2.list == l);		/* the caller's iterator is always positioned on this list ... */
+			if (!f) VT_ASSERT(it2.prevnext == (len ? &nd[m->seq[w][len - 1]].link.next : &l->head) && *it2.prevnext == 0);	/* ... past the end when the node is not found */
 			if (f) { int p = 0; for (int i = 0; i < NN; i++) if (i < len && m->seq[w][i] == x) p = i;
 				 r = list_iterator_remove(&it2); m_remove_at(m, w, p);
 				 VT_ASSERT(r == (p < m->len[w] ? &nd[m->seq[w][p]].link : 0)); }
